@@ -12,6 +12,8 @@ edits which only change the *orientation* of a construct cannot change a verdict
   N5  statement-level logging / print / warnings.warn calls are dropped (trusted: they do not change state)
   N6  `x: T = v` -> `x = v`; a bare declaration `x: T` is dropped
   N7  a loop body ending in `if C: B` (no else) is written as the guard clause `if not C: continue` followed by B
+  N20 `if a:` whose only statement is `if b: X` (no else on either) -> `if a and b: X`
+  N21 `if c: ...; return|raise|continue|break` with an `else: E` -> the `if` without else, followed by E
   N8  `if c: x = A else: x = B` -> `x = A if c else B`;  `x = D` directly followed by `if c: x = V` -> `x = V if c else D` (D a simple value)
 
 Line numbers are kept (reports still point at the source line); printed constructs show the normal form.
@@ -20,6 +22,7 @@ from __future__ import annotations
 
 import ast
 import copy
+from typing import Dict
 
 _MIRROR = {ast.Eq: ast.Eq, ast.NotEq: ast.NotEq, ast.Lt: ast.Gt, ast.Gt: ast.Lt, ast.LtE: ast.GtE, ast.GtE: ast.LtE}
 _NEG = {ast.Eq: ast.NotEq, ast.NotEq: ast.Eq, ast.In: ast.NotIn, ast.NotIn: ast.In, ast.Is: ast.IsNot, ast.IsNot: ast.Is}
@@ -148,13 +151,47 @@ def _merge_conditional_assignments(body):
     return out
 
 
+def _and_values(t):
+    return list(t.values) if isinstance(t, ast.BoolOp) and isinstance(t.op, ast.And) else [t]
+
+
+def _merge_nested_ifs(body):
+    """N20: `if a:` whose only statement is `if b: X` (no else on either)  ->  `if a and b: X`   (same evaluation order, same short circuit)"""
+    out = []
+    for st in body:
+        if isinstance(st, ast.If) and not st.orelse and len(st.body) == 1 and isinstance(st.body[0], ast.If) and not st.body[0].orelse:
+            inner = st.body[0]
+            vals = _and_values(st.test) + _and_values(inner.test)
+            if not any(isinstance(n, ast.NamedExpr) for v in vals for n in ast.walk(v)):
+                st = ast.copy_location(ast.If(test=ast.copy_location(ast.BoolOp(op=ast.And(), values=vals), st.test), body=inner.body, orelse=[]), st)
+        out.append(st)
+    return out
+
+
+_JUMPS = (ast.Return, ast.Raise, ast.Continue, ast.Break)
+
+
+def _unelse(body):
+    """N21: `if c: ...; <return|raise|continue|break>` / `else: E`  ->  the `if` without else, followed by E   (E is only reached when c is false)"""
+    out = []
+    for st in body:
+        if isinstance(st, ast.If) and st.orelse and st.body and isinstance(st.body[-1], _JUMPS):
+            rest = st.orelse
+            st.orelse = []
+            out.append(st)
+            out.extend(_unelse(rest))
+        else:
+            out.append(st)
+    return out
+
+
 class Normalise(ast.NodeTransformer):
     def generic_visit(self, node):
         node = super().generic_visit(node)
         for f in ("body", "orelse", "finalbody"):
             lst = getattr(node, f, None)
             if isinstance(lst, list) and lst and isinstance(lst[0], ast.stmt):
-                setattr(node, f, _merge_conditional_assignments(lst))
+                setattr(node, f, _merge_conditional_assignments(_unelse(_merge_nested_ifs(lst))))
         for f in ("body", "orelse", "finalbody"):
             lst = getattr(node, f, None)
             if isinstance(lst, list) and f == "body" and not lst and isinstance(node, (ast.FunctionDef, ast.AsyncFunctionDef, ast.For, ast.AsyncFor, ast.While, ast.If,
@@ -182,6 +219,15 @@ class Normalise(ast.NodeTransformer):
             keep = n.body if n.test.value else n.orelse   # N17: the branch a literal test selects
             return keep if keep else ast.copy_location(ast.Pass(), n)
         two = n.orelse and not (len(n.orelse) == 1 and isinstance(n.orelse[0], ast.If))
+        jb, jo = bool(n.body) and isinstance(n.body[-1], _JUMPS), bool(n.orelse) and isinstance(n.orelse[-1], _JUMPS)
+        size = lambda b: sum(1 for x in b for y in ast.walk(x) if isinstance(y, ast.stmt))  # noqa: E731
+        if n.orelse and (jb != jo or (jb and jo and size(n.body) != size(n.orelse))):
+            # N21 will drop the else: the branch that leaves (the shorter one when both leave) is the `if` body, whatever the polarity of the test
+            if jo and (not jb or size(n.orelse) < size(n.body)):
+                neg, was_neg = _strip_not(ast.copy_location(ast.UnaryOp(op=ast.Not(), operand=n.test), n.test))
+                n.test = neg if not was_neg else ast.copy_location(ast.UnaryOp(op=ast.Not(), operand=neg), n.test)
+                n.body, n.orelse = n.orelse, n.body
+            return n
         if two and isinstance(n.test, ast.UnaryOp) and isinstance(n.test.op, ast.Not):
             n.test, n.body, n.orelse = n.test.operand, n.orelse, n.body
         elif two and _negative(n.test):
@@ -771,7 +817,184 @@ def _inline_single_use_temps(tree):
     return tree
 
 
+# N19: one spelling per library reference ------------------------------------------------------------------------------------------
+_ALIASED = {"networkx": "nx", "numpy": "np", "pandas": "pd"}
+_BARE = {"copy", "itertools", "collections", "functools", "operator", "heapq"}
+
+
+def _module_bound_names(tree) -> set:
+    out = set()
+    for n in ast.walk(tree):
+        if isinstance(n, ast.Name) and isinstance(n.ctx, (ast.Store, ast.Del)):
+            out.add(n.id)
+        elif isinstance(n, ast.arg):
+            out.add(n.arg)
+        elif isinstance(n, (ast.FunctionDef, ast.AsyncFunctionDef, ast.ClassDef)):
+            out.add(n.name)
+        elif isinstance(n, ast.ExceptHandler) and n.name:
+            out.add(n.name)
+        elif isinstance(n, (ast.Global, ast.Nonlocal)):
+            out.update(n.names)
+    return out
+
+
+def _canonical_imports(tree):
+    """N19: a reference to a member of a library module is written one way, whatever the import statement looked like:
+         networkx / numpy / pandas members      ->  nx.X / np.X / pd.X      (`import networkx`, `import networkx as NX`, `from networkx import X [as Y]`)
+         members of networkx sub-modules        ->  bare X                  (`nx.isomorphism.GraphMatcher`, `isomorphism.GraphMatcher`, `GraphMatcher`)
+         copy / itertools / collections / functools / operator / heapq members -> bare X   (`itertools.chain`, `it.chain`, `from itertools import chain as ch`)
+       (a member named like its module - `copy.copy` - keeps the dotted form).  The matching canonical import statement is added to the
+       analysed tree so that import-based resolution sees the same thing.  Nothing is rewritten when the canonical name is bound to
+       something else in the module."""
+    if not isinstance(tree, ast.Module):
+        return tree
+    stmts = [st for st in ast.walk(tree) if isinstance(st, (ast.Import, ast.ImportFrom))]
+    if not stmts:
+        return tree
+    bound = _module_bound_names(tree)
+    roots: Dict[str, str] = {}     # local name -> dotted library module it names
+    members: Dict[str, str] = {}   # local name -> dotted library member it names
+    all_import_locals = set()
+    for st in stmts:
+        for a in st.names:
+            all_import_locals.add(a.asname or a.name.split(".")[0])
+    libs = set(_ALIASED) | _BARE
+    for st in stmts:
+        if isinstance(st, ast.Import):
+            for a in st.names:
+                top = a.name.split(".")[0]
+                if top in libs:
+                    if a.asname:
+                        roots[a.asname] = a.name
+                    else:
+                        roots[top] = top
+        elif st.level == 0 and st.module and st.module.split(".")[0] in libs:
+            for a in st.names:
+                if a.name != "*":
+                    members[a.asname or a.name] = f"{st.module}.{a.name}"
+    # a name that is also bound by ordinary code is not reliably the library
+    for d in (roots, members):
+        for k in [k for k in d if k in bound]:
+            del d[k]
+    # the same local name imported in two different meanings is left alone
+    seen: Dict[str, set] = {}
+    for st in stmts:
+        for a in st.names:
+            if isinstance(st, ast.Import):
+                seen.setdefault(a.asname or a.name.split(".")[0], set()).add(a.name if a.asname else a.name.split(".")[0])
+            else:
+                seen.setdefault(a.asname or a.name, set()).add(("." * st.level) + f"{st.module}.{a.name}")
+    for k, v in seen.items():
+        if len(v) > 1:
+            roots.pop(k, None)
+            members.pop(k, None)
+    if not roots and not members:
+        return tree
+    need: set = set()   # canonical import statements to add: ("alias", module, alias) | ("from", module, name)
+
+    def canonical(full: str, ctx):
+        parts = full.split(".")
+        top = parts[0]
+        if top in _ALIASED:
+            al = _ALIASED[top]
+            if len(parts) == 2:
+                if al in bound or (al in all_import_locals and roots.get(al, top) != top):
+                    return None
+                need.add(("alias", top, al))
+                return ast.Attribute(value=ast.Name(id=al, ctx=ast.Load()), attr=parts[1], ctx=ctx)
+            if len(parts) > 2 and all(p.islower() or "_" in p for p in parts[1:-1]) and top == "networkx":
+                x = parts[-1]
+                if x in bound or (x in all_import_locals and members.get(x, "").split(".")[-1] != x):
+                    return None
+                need.add(("from", ".".join(parts[:-1]), x))
+                return ast.Name(id=x, ctx=ctx)
+            return None
+        if top in _BARE and len(parts) == 2:
+            x = parts[1]
+            if x == top:
+                if top in bound or roots.get(top, top) != top:
+                    return None
+                need.add(("alias", top, top))
+                return ast.Attribute(value=ast.Name(id=top, ctx=ast.Load()), attr=x, ctx=ctx)
+            if x in bound or (x in all_import_locals and members.get(x) != full and x not in roots):
+                return None
+            if x in roots:
+                return None
+            need.add(("from", top, x))
+            return ast.Name(id=x, ctx=ctx)
+        return None
+
+    class R(ast.NodeTransformer):
+        def visit_Attribute(self, n):
+            d = []
+            cur = n
+            while isinstance(cur, ast.Attribute):
+                d.append(cur.attr)
+                cur = cur.value
+            if isinstance(cur, ast.Name) and isinstance(cur.ctx, ast.Load) and (cur.id in roots or cur.id in members):
+                base = roots.get(cur.id) or members[cur.id]
+                d.reverse()
+                # the longest prefix that names a library member is canonicalised, the rest stays an attribute chain
+                for k in range(len(d), -1, -1):
+                    full = ".".join([base] + d[:k])
+                    if k == 0 and cur.id in roots:
+                        break
+                    c = canonical(full, ast.Load())
+                    if c is not None:
+                        out = c
+                        for a_ in d[k:]:
+                            out = ast.Attribute(value=out, attr=a_, ctx=ast.Load())
+                        out.ctx = n.ctx
+                        return ast.copy_location(out, n)
+                return n
+            self.generic_visit(n)
+            return n
+
+        def visit_Name(self, n):
+            if isinstance(n.ctx, ast.Load) and n.id in members:
+                c = canonical(members[n.id], ast.Load())
+                if c is not None:
+                    return ast.copy_location(c, n)
+            return n
+
+        def visit_Import(self, n):
+            return n
+
+        def visit_ImportFrom(self, n):
+            return n
+
+    tree = R().visit(tree)
+    have = set()
+    for st in stmts:
+        for a in st.names:
+            if isinstance(st, ast.Import) and a.asname:
+                have.add(("alias", a.name, a.asname))
+            elif isinstance(st, ast.Import):
+                have.add(("alias", a.name, a.name))
+            elif st.level == 0 and not a.asname:
+                have.add(("from", st.module, a.name))
+    extra = []
+    for kind, mod, nm in sorted(need - have):
+        if kind == "alias":
+            extra.append(ast.Import(names=[ast.alias(name=mod, asname=None if nm == mod else nm)]))
+        else:
+            extra.append(ast.ImportFrom(module=mod, names=[ast.alias(name=nm, asname=None)], level=0))
+    if extra:
+        k = 0
+        body = tree.body
+        if body and isinstance(body[0], ast.Expr) and isinstance(body[0].value, ast.Constant) and isinstance(body[0].value.value, str):
+            k = 1
+        while k < len(body) and isinstance(body[k], ast.ImportFrom) and body[k].module == "__future__":
+            k += 1
+        for e in extra:
+            e.lineno = body[k].lineno if k < len(body) else 1
+            e.col_offset = 0
+        tree.body = body[:k] + extra + body[k:]
+    return tree
+
+
 def normalise(tree: ast.AST) -> ast.AST:
+    tree = _canonical_imports(tree)
     tree = Normalise().visit(tree)
     tree = _unroll_table_loops(tree)
     tree = _param_defaults(tree)
